@@ -35,6 +35,8 @@ def run(ctx, rep):
     rep.rule("record-fields", "in write_rela_sections' record writer: r_offset = section address + input offset, r_type = input raw type (parameter passed through), "
              "r_addend = input addend (+ section address only for STT_SECTION symbols), r_sym from sym_index_map[own id] or [canonical id]")
     rep.rule("record-source", "every call of the record writer passes rel.offset(), rel.symbol(), rel.raw_type(), rel.addend() of one input record, for RELA and CREL lists alike")
+    rep.rule("partition-agreement", "build_sym_index_map splits symbols into the local and the global half of .symtab with the same predicate the symbol writer "
+             "(SymbolTableWriter::copy_symbol_shndx / copy_absolute_symbol) uses: ValueFlags::is_symtab_local - otherwise every index after a symbol the two classify differently is off by one")
     rep.rule("raw-copy", "in write_object_section, apply_relocations is reached only when should_output_partial_object() is false, and relocation sections are skipped under -r")
 
     ws = F.body(W + "write_rela_sections")
@@ -191,4 +193,28 @@ def run(ctx, rep):
             ok, why = decide.check_formula(paths, {"partial": "should_output_partial_object", "rela": "is_rela(", "rel": "is_rel("},
                                            lambda v: not (v["partial"] and (v["rela"] or v["rel"])))
             rep.ob("raw-copy", "rela-inputs-skipped", ok, f"the raw copy is reached iff !(partial && (is_rela || is_rel)): {why}", wo.file, wo.line)
+    _partition_agreement(rep, P, F)
     rep.assume("symbol numbering agreement between build_sym_index_map and the symbol-table writer, and the behaviour of the final link, are not decided")
+
+
+def _partition_agreement(rep, P, F):
+    b = F.body(W + "build_sym_index_map")
+    if b is None:
+        rep.lost("partition-agreement", "elf_writer::build_sym_index_map")
+        return
+    full = decide.all_edge_atoms_full(P, F, b)
+    preds = sorted({str(a).split("(")[0].replace("call:", "") for (a, _t) in full.values() if "local" in str(a).split("(")[0].lower()})
+    rep.ob("partition-agreement", "map-predicate", preds == ["ValueFlags::is_symtab_local"], f"build_sym_index_map decides local/global with {preds}", b.file, b.line)
+    writers = []
+    for key in ("SymbolTableWriter::copy_symbol_shndx", "SymbolTableWriter::copy_absolute_symbol"):
+        w = F.body(W + key)
+        if w is None:
+            rep.lost("partition-agreement", key)
+            continue
+        wf = P.flow(w)
+        uses = []
+        for _bi, t in wf.calls():
+            if (callee_key(t["f"]) or "").endswith("SymbolTableWriter::define_symbol") and len(t["args"]) > 1:
+                uses = sorted({(x[1] or "").split("::")[-1] for x in wf.origins(t["args"][1]) if x[0] == "call"})
+        writers.append(uses)
+        rep.ob("partition-agreement", f"writer:{key.split('::')[-1]}", uses == ["is_symtab_local"], f"{key} passes is_local = {uses} to define_symbol", w.file, w.line)
